@@ -321,7 +321,11 @@ func BuildOps(r *fw.Rand, n int) []Op {
 				return out + " -> " + canon(res, rerr)
 			}})
 		case k < 14: // Data Matrix write + read
-			content := from(r, "abcdefghijklmnopqrstuvwxyzABCXYZ0123456789 *>\r!&\xe9\xfc", 1+r.Intn(90))
+			n := 1 + r.Intn(90)
+			if r.Intn(5) == 0 {
+				n = 300 + r.Intn(900) // several interleaved Reed-Solomon blocks (52x52 and larger)
+			}
+			content := from(r, "abcdefghijklmnopqrstuvwxyzABCXYZ0123456789 *>\r!&\xe9\xfc", n)
 			rs := make([]rune, 0, len(content))
 			for i := 0; i < len(content); i++ {
 				rs = append(rs, rune(content[i]))
@@ -359,7 +363,12 @@ func BuildOps(r *fw.Rand, n int) []Op {
 				rr := fw.NewRand(seed)
 				specs := azref.AllSpecs()
 				spec := specs[rr.Intn(12)] // compact 1..4 and small full symbols keep the race build fast
-				bits, _ := azref.RandomTokens(rr, 60+rr.Intn(200))
+				nb := 60 + rr.Intn(200)
+				if rr.Intn(6) == 0 { // sometimes a large one: 10- and 12-bit codewords, GF(1024) and GF(4096)
+					spec = specs[12+rr.Intn(len(specs)-12)]
+					nb = 200 + rr.Intn(2000)
+				}
+				bits, _ := azref.RandomTokens(rr, nb)
 				sym, ok := azref.Build(spec, bits, 3)
 				if !ok {
 					spec = specs[8]
@@ -399,7 +408,7 @@ func BuildOps(r *fw.Rand, n int) []Op {
 			seed := r.Uint64()
 			ops = append(ops, Op{"rs", func() string {
 				rr := fw.NewRand(seed)
-				fields := []*reedsolomon.GenericGF{reedsolomon.GenericGF_QR_CODE_FIELD_256, reedsolomon.GenericGF_DATA_MATRIX_FIELD_256, reedsolomon.GenericGF_AZTEC_DATA_10, reedsolomon.GenericGF_AZTEC_PARAM, reedsolomon.GenericGF_AZTEC_DATA_6}
+				fields := []*reedsolomon.GenericGF{reedsolomon.GenericGF_QR_CODE_FIELD_256, reedsolomon.GenericGF_DATA_MATRIX_FIELD_256, reedsolomon.GenericGF_AZTEC_DATA_10, reedsolomon.GenericGF_AZTEC_PARAM, reedsolomon.GenericGF_AZTEC_DATA_6, reedsolomon.GenericGF_AZTEC_DATA_12, reedsolomon.GenericGF_AZTEC_DATA_8, reedsolomon.GenericGF_MAXICODE_FIELD_64}
 				f := fields[rr.Intn(len(fields))]
 				n := 4 + rr.Intn(minI(f.GetSize()-5, 60))
 				ec := 1 + rr.Intn(n-1)
